@@ -54,7 +54,7 @@ def strip_term(term):
     if isinstance(term, list):
         return [strip_term(x) for x in term]
     if isinstance(term, dict):
-        return {k: strip_term(v) for k, v in term.items() if not k.startswith('_')}
+        return {str(k): strip_term(v) for k, v in term.items() if not str(k).startswith('_')}
     if isinstance(term, (bytes, bytearray)):
         return repr(term)
     if isinstance(term, float) or isinstance(term, complex):
@@ -168,3 +168,46 @@ def histograms(cases):
         if c.col_obs and c.col_obs[0] == 'tree':
             h['node:' + type(c.col_obs[1]).__name__] += 1
     return dict(sorted(h.items()))
+
+
+# ---------------------------------------------------------------- serialiser cases
+
+HEADER_INTO = HEADER.replace('Run.AgreeConv.', 'Run.AgreeConv Model.Into Run.AgreeInto.')
+
+
+def observe_into(case, x):
+    """Converter.into_data of the case's type on a typed value x"""
+    from pane.convert import make_converter
+    from pane.errors import ParseInterrupt
+    with warnings.catch_warnings():
+        warnings.simplefilter('ignore')
+        conv = make_converter(case.built.py)
+        try:
+            return ('ok', conv.into_data(x))
+        except ParseInterrupt:
+            return ('reject',)
+        except Exception as e:
+            return ('escape', e)
+
+
+def render_into(case, x, obs):
+    if not case.built.coq or '%NOCOQ%' in case.built.coq:
+        return None
+    try:
+        if obs[0] == 'ok':
+            o = f'(Ok {val_to_coq(obs[1])})'
+        elif obs[0] == 'reject':
+            o = 'Reject'
+        else:
+            o = f'(Escape {exn_to_coq(obs[1])})'
+        return f'({case.built.coq}, {val_to_coq(x)}, {o})'
+    except (Unsupported, RecursionError):
+        return None
+
+
+def correspond_into(prop, items, per=250):
+    """items: list of (case, x, obs, coq_text)"""
+    rendered = [it for it in items if it[3]]
+    bad, errs = run_shards(prop, 'into', HEADER_INTO, rendered, lambda it: it[3], per=per,
+                           final='into_mismatches', ty='list into_case')
+    return len(rendered), [rendered[i] for i in bad], errs
